@@ -295,6 +295,7 @@ func (m *Message) WriteHeader() {
 
 // WriteTransactionID writes m.TransactionID to m.Raw.
 func (m *Message) WriteTransactionID() {
+	m.grow(messageHeaderSize)
 	copy(m.Raw[8:messageHeaderSize], m.TransactionID[:]) // transaction ID
 }
 
